@@ -280,7 +280,8 @@ Definition v2_tok (h : hdr) (d : v2st) (t : token) : pst :=
       match d_cur d with
       | [] =>                                             (* the frequency *)
         let f := xmul (XQ (h_mult h)) x in
-        if match d_freqs d with prev :: _ => xle f prev | [] => false end then err
+        if xlt x xq0 then err                               (* "frequency cannot be negative" (fix DF13) *)
+        else if match d_freqs d with prev :: _ => xle f prev | [] => false end then err
         else
           let d' := mkv2 (d_left d) (d_need d) (d_togo d - 1) [x] (f :: d_freqs d) (d_mats d) in
           match (d_togo d - 1)%nat with
